@@ -4,6 +4,9 @@
 //	       time through the verif-tagged wrappers; head, buffer and catch-up outcome compared with
 //	       the model after every step; the extracted predicates evaluated on the observed heads.
 //	mode B (run loop): Client.Run in a goroutine against a scripted provider; heads compared at ticks.
+//	mode C (geth adapter): mode A with every live event, subscription error and catch-up log going
+//	       through the real forwardStateUpdates / stateUpdateFromGethContract; the forwarded events are
+//	       compared with the extracted adapter model, the predicates are evaluated on the geth-level stream.
 package main
 
 import (
@@ -32,7 +35,11 @@ func (rn *runner) reportDet(cs *Case, res *evalRes) {
 		if w == nil { // cannot happen: shrinkDet only keeps cases where the class fires
 			small, sres, w = cs, res, &v
 		}
-		rp := small.replay("det")
+		mode := "det"
+		if small.Fwd {
+			mode = "fwd"
+		}
+		rp := small.replay(mode)
 		rp.Line, rp.Reply = sres.line, sres.reply
 		rn.c.Violation(w.class, fmt.Sprintf("%s on: %s", w.what, sres.line), rp, w.noInput)
 	}
@@ -152,6 +159,29 @@ func main() {
 		}
 	}
 	c.Extra["cases_deterministic"] = nDet
+
+	// ---------- mode C: the same driving, through the real geth adapter ----------
+	nFwd := nDet / 8
+	for i := 0; i < nFwd; i++ {
+		cr := r.Fork(uint64(2_000_000 + i))
+		var cs *Case
+		if cr.Chance(80) {
+			cs = genG1(cr, false, 5+cr.Intn(25))
+		} else {
+			cs = genG2(cr)
+		}
+		cs.Fwd = true
+		res := evalDet(or, cs)
+		c.Hist["mode:geth-adapter"]++
+		rn.account(cs, res)
+		if i%500 == 11 {
+			c.Sample(map[string]string{"mode": "fwd", "gen": cs.Gen, "line": res.line, "reply": res.reply})
+		}
+		if len(res.verdicts) > 0 {
+			rn.reportDet(cs, res)
+		}
+	}
+	c.Extra["cases_geth_adapter"] = nFwd
 
 	// ---------- mode B ----------
 	for i := 0; i < nRun; i++ {
